@@ -69,10 +69,14 @@ impl<A: AcceptableMasterList, C: Clock, F: Filter, R: Rng, S: PtpInstanceStateMu
                 *time_properties_ds = announce.time_properties();
 
                 if let Some(tlv) = path_trace_tlv {
-                    // Cannot panic as `list` is large enough to contain up to a whole message
+                    // The host may hand us frames larger than MAX_DATA_LEN, so a path can be
+                    // longer than `list`: keep what fits (a full list is not extended any
+                    // further when we announce it).
+                    let capacity = path_trace_ds.list.capacity();
                     path_trace_ds.list = tlv
                         .value
                         .chunks_exact(8)
+                        .take(capacity)
                         .map(|ci| ClockIdentity(<[u8; 8]>::try_from(ci).unwrap()))
                         .collect();
                 }
